@@ -15,9 +15,10 @@ func init() {
 	property("C07",
 		"Static conformance of the structural part of format(): (a) conservation — in the main loop of FormatText every non-break word is written to the current line exactly once on every path, every reset of the current line is preceded by flushing it to the output, a break word flushes the line, writes one break code and one newline, the final line is flushed after the loop, and nothing but the word, a single space, the line content, the break codes and the newline byte is ever written; (b) break discipline shape — the automatic break (\\N) and the wrap choose between \\n and \\l by the same predicate over (current line number, numLines), the line number is incremented on every line end and reset by a paragraph break; (c) parameter binding — each named format() parameter reaches the FormatText parameter of the same meaning, font-config fallbacks read the field of the same name under the font id that is passed to FormatText. NOT decided (runtime arithmetic): that every line fits maxLineLength, that a word moves only when it does not fit, cursor-overlap accounting, and getNextWord's tokenisation.",
 		[]string{"pixel-width arithmetic and getNextWord tokenisation are not decided (DESIGN §6)", "go/ssa lowering is faithful to the source"},
-		"C07.a", "C07.b", "C07.c", "C07.d")
+		"C07.a", "C07.b", "C07.c", "C07.d", "C07.e")
 
 	register(&Rule{ID: "C07.d", Doc: "formatting is a function of (text, font table, parameters): the formatter writes no state; depth counters of the word scanner cannot go negative", Floor: 3, Run: c07d})
+	register(&Rule{ID: "C07.e", Doc: "a width is what the font table says for the glyph when it lists it (also when that is 0), else the font's default, else the fallback: presence decided by the comma-ok bit; cursor room reserved exactly on lines that show the prompt", Floor: 3, Run: c07e})
 	register(&Rule{ID: "C07.a", Doc: "FormatText conservation: words written once, flush before reset, final flush, who-writes-what", Floor: 10, Run: c07a})
 	register(&Rule{ID: "C07.b", Doc: "break choice predicate agrees at both sites; line counter discipline", Floor: 4, Run: c07b})
 	register(&Rule{ID: "C07.c", Doc: "format() parameter binding and font-config fallbacks", Floor: 8, Run: c07c})
@@ -640,4 +641,93 @@ func c07d(c *Ctx) {
 		})
 	}
 	c.Check(nCounters >= 3, "depth-counters", "-", fmt.Sprintf("%d guarded decrements of zero-tested loop counters in package parser", nCounters), "fewer depth counters than confirmed by hand")
+}
+
+// c07e: (i) getWidth: a glyph or control code the table lists with width 0 is a zero-width
+// glyph, not a missing one: every table value that is returned is read with the comma-ok form
+// and returned exactly when its ok bit is set; the "default" entry is consulted only when the
+// glyph is absent, the fallback only when both are. (ii) FormatText adds the cursor overlap to
+// the projected width exactly when a next word exists and the line is the last of the box or
+// the next word starts a new paragraph — for every kind of next word, break codes included.
+func c07e(c *Ctx) {
+	if fn := c.Fn("parser.FontConfig.getWidth"); fn != nil {
+		n := 0
+		for _, r := range c.flatReturns(fn) {
+			t := r.terms[0]
+			pos := c.W.Pos(r.ret.Pos())
+			if !strings.Contains(t, ".Widths[") {
+				continue
+			}
+			n++
+			key := fmt.Sprintf("getWidth/table-value#%d", n)
+			if !strings.HasSuffix(t, "#0") {
+				c.Bad(key, pos, "the width "+pretty(t)+" is read from the table without its presence bit: an entry listed with width 0 is indistinguishable from a missing one")
+				continue
+			}
+			okBit := strings.TrimSuffix(t, "#0") + "#1"
+			all := len(r.cond.cs) > 0
+			for _, cj := range r.cond.cs {
+				if !hasLit(cj, "+"+okBit) {
+					all = false
+				}
+			}
+			c.Check(all, key, pos, "a table width is returned exactly when the table lists the entry", "the table width "+pretty(t)+" is returned on a path where its presence bit was not tested (["+r.cond.String()+"])")
+			if strings.Contains(t, `["default"]`) {
+				// only when the glyph itself is absent
+				absent := len(r.cond.cs) > 0
+				for _, cj := range r.cond.cs {
+					has := false
+					for _, l := range cj {
+						if strings.HasPrefix(l, "-") && strings.Contains(l, ".Widths[$1]#1") {
+							has = true
+						}
+					}
+					if !has {
+						absent = false
+					}
+				}
+				c.Check(absent, key+"/default-only-when-absent", pos, "the default width is used only for glyphs the table does not list", "the font's default width can be returned for a glyph whose own entry was not tested absent by its presence bit")
+			}
+		}
+		c.Check(n >= 2, "getWidth/table-values", c.W.FuncPos(fn), "glyph width and default width are read from the font table", fmt.Sprintf("found %d returns of a table width in getWidth, expected the glyph's and the default", n))
+	}
+	// (ii) cursor room
+	if fn := c.Fn("parser.FontConfig.FormatText"); fn != nil {
+		n := 0
+		instrs(fn, func(in ssa.Instruction) {
+			bo, ok := in.(*ssa.BinOp)
+			if !ok || bo.Op != token.ADD {
+				return
+			}
+			if c.term(fn, bo.Y) != "$3" && c.term(fn, bo.X) != "$3" {
+				return // not "+ cursorOverlapWidth"
+			}
+			n++
+			d := c.PC(fn).canonOf(c.PC(fn).At(bo.Block()))
+			// keep only what is said about the next word and the line number
+			var nextWord, lineNum string
+			for _, a := range dnfAtoms(d) {
+				if strings.HasPrefix(a, "(0 < builtin:len(") && strings.Contains(a, "getNextWord") {
+					nextWord = strings.TrimSuffix(strings.TrimPrefix(a, "(0 < builtin:len("), "))")
+				}
+				if strings.HasSuffix(a, "+1 < $5)") {
+					lineNum = strings.TrimSuffix(strings.TrimPrefix(a, "("), "+1 < $5)")
+				}
+			}
+			pos := c.W.Pos(bo.Pos())
+			if nextWord == "" || lineNum == "" {
+				c.Bad("cursor-room/condition", pos, "the cursor overlap is added under ["+pretty(d.String())+"], which does not test that a next word exists and whether the line is the last of the box")
+				return
+			}
+			rel := dropAtoms(d, func(a string) bool {
+				return !strings.Contains(a, nextWord) && a != "("+lineNum+"+1 < $5)"
+			})
+			has := "+(0 < builtin:len(" + nextWord + "))"
+			last := "-(" + lineNum + "+1 < $5)"
+			para := "+(*parser.FontConfig).isParagraphBreak($0," + nextWord + ")"
+			want := mkDNF([]string{has, last}, []string{has, para})
+			c.Check(dnfEquiv(rel, want), "cursor-room/condition", pos, "cursor room is reserved exactly when a next word exists and (the line is the last of the box or the next word is a paragraph break)", "the cursor overlap is added under ["+pretty(rel.String())+"], expected exactly (next word exists) && (last line of the box || next word is \\p): a line that shows the prompt could exceed the width, or a word could wrap although it fits")
+		})
+		c.Check(n == 1, "cursor-room/site", c.W.FuncPos(fn), "one place adds the cursor overlap to the projected width", fmt.Sprintf("found %d additions of cursorOverlapWidth, expected 1", n))
+	}
 }
